@@ -70,8 +70,12 @@ def _content(path, width, kind, number, param_value):
             v = kind[names.index("Enum")][1][0][1]
         elif "Flag" in names:
             v = number % 2
+        elif "DatetimeYdus" in names:
+            v = number % 86400000000  # microseconds of a day
+        elif fmt[-1].isupper():
+            v = 2 ** (8 * size - 1) + number % (2 ** (8 * size - 2))  # unsigned field: top bit set (a signed reading would differ)
         else:
-            v = number % (2 ** (8 * size - 1))
+            v = -(number % (2 ** (8 * size - 2))) - 1  # signed field: negative (an unsigned reading would differ)
         want = v
         if "Enum" in names:
             want = kind[names.index("Enum")][1][0][0]  # the name the pinned table gives to the written code
